@@ -167,9 +167,13 @@ def oracle(ck: Check, tier, deep):
         rep = dict(shape=[r, c], method=method, direction=direction, symmetry_axis=repr(axis), use_quadrants=list(mask),
                    transform_options={k: (list(v) if isinstance(v, tuple) else v) for k, v in kw.items()},
                    image=np.asarray(arg).tolist())
+        rep["symmetrize_method"] = "fourier-or-average"
         func = getattr(importlib.import_module(METHODS[method][0]), METHODS[method][1])
         try:
-            t = T(arg, method=method, direction=direction, symmetry_axis=axis, use_quadrants=mask, transform_options=kw)
+            # (with every quadrant enabled the two symmetrisation methods are the same projector; 'fourier' ignores partial masks)
+            symm = "fourier" if (code != 0 and all(mask) and rng.random() < 0.4) else "average"
+            t = T(arg, method=method, direction=direction, symmetry_axis=axis, use_quadrants=mask, transform_options=kw,
+                  symmetrize_method=symm)
             ref = ref_transform(np.asarray(arg, dtype="float64"), func, code, mask, direction=direction, **kw)
         except Exception as e:
             ck.violation(dict(sig, clause="exception"), rep, f"{type(e).__name__}: {e}")
@@ -177,12 +181,12 @@ def oracle(ck: Check, tier, deep):
         scale = max(1.0, np.abs(ref).max())
         if t.transform.shape != arg.shape:
             ck.violation(dict(sig, clause="shape"), rep, f"output shape {t.transform.shape} != input shape {arg.shape}")
-        elif np.abs(t.transform - ref).max() > 1e-12 * scale:
+        elif np.abs(t.transform - ref).max() > (1e-12 if symm == "average" else 1e-10) * scale * (1 if symm == "average" else max(1.0, np.abs(arg).max())):
             ck.violation(sig, rep, f"not the assembly of the method's own quadrant transforms (off by "
                                    f"{np.abs(t.transform - ref).max():.3g})")
         if intd:
             tf = T(np.asarray(arg, dtype="float64"), method=method, direction=direction, symmetry_axis=axis,
-                   use_quadrants=mask, transform_options=kw)
+                   use_quadrants=mask, transform_options=kw, symmetrize_method=symm)
             if not np.array_equal(tf.transform, t.transform):
                 ck.violation(dict(sig, clause="int-vs-float"), rep, "integer input differs from its float64 copy")
     # centring step and option routing
@@ -245,6 +249,30 @@ def oracle(ck: Check, tier, deep):
         if seen.get("ai") != want_ai:
             ck.violation(dict(sig, what="angular_integration_options"), rep,
                          f"angular integration received {seen.get('ai')}, expected {want_ai}")
+    # option dictionaries are per call: a dr given once must not be remembered by later calls that give none
+    seen = {}
+    real_ai = vmimod.angular_integration_3D
+
+    def rec_ai2(IM, **kw):
+        seen.setdefault("calls", []).append(dict(kw))
+        return real_ai(IM, **kw)
+    ck.count("S.route.defaults", suite="S.route")
+    try:
+        im = rng.random((11, 11))
+        user_opts = {}
+        with patched("abel.tools.vmi", "angular_integration_3D", rec_ai2):
+            T(im, method="two_point", angular_integration=True, transform_options=dict(dr=0.5, basis_dir=None))
+            T(im, method="two_point", angular_integration=True, transform_options=dict(basis_dir=None))
+            T(im, method="two_point", angular_integration=True, transform_options=dict(dr=0.25, basis_dir=None),
+              angular_integration_options=user_opts)
+        calls = seen.get("calls", [])
+        if len(calls) != 3 or calls[0] != dict(dr=0.5) or calls[1] != {} or calls[2] != dict(dr=0.25) or user_opts != {}:
+            ck.violation(dict(site="Transform", clause="routing", what="angular_integration_options-history"),
+                         dict(calls=[str(c) for c in calls], user_dict_after=str(user_opts)),
+                         f"angular integration received {calls} in three successive calls (dr=0.5, none, dr=0.25 with the caller's own empty dict, "
+                         f"which is {user_opts} afterwards)")
+    except Exception as e:
+        ck.violation(dict(site="Transform", clause="exception"), dict(what="angular_integration defaults"), f"{type(e).__name__}: {e}")
     # linbasex / rbasex pass-through
     for it in range(12 if not deep else 40):
         n = int(rng.choice([11, 15, 21]))
